@@ -89,6 +89,8 @@ class Def:
         self.inner = None           # newtype: slot
         self.symbols = []           # unit enum: [(ident, skipped)]
         self.variants = []          # union enum: [(ident, serde_name, slot|None, escapable)]
+        self.const_generic = False  # the parameters are `const N: usize`; an argument ("bytearr", n) stands for [u8; n]
+        self.core = False           # member of the fixed core set
         self.nt_class = None        # newtype: "scalar" | "fixed" | "bytes" | "named" | "seq" | "logical" | "param"
 
     @property
@@ -146,6 +148,7 @@ class Family:
         for d in sorted(self.defs, key=lambda d: d.rank):
             self.build_body(d)
         self.add_root()
+        self.add_core()
         self.roots = self.make_roots()
 
     # ------------------------------------------------------------------ classification
@@ -187,7 +190,7 @@ class Family:
         own = ctx["def"]
         out = []
         for d in self.defs:
-            if not pred(d) or d.ident == "Root":
+            if not pred(d) or d.ident == "Root" or d.core:
                 continue
             if d.rank < own.rank:
                 out.append(d)
@@ -282,6 +285,8 @@ class Family:
             return "T%d" % t[1]
         if k == "named":
             d = self.defs[t[1]]
+            if d.const_generic:
+                return d.ident + "<%s>" % ", ".join(str(a[1]) for a in t[2])
             return d.ident + ("<%s>" % ", ".join(self.rust_ty(a) for a in t[2]) if t[2] else "")
         raise ValueError(t)
 
@@ -624,6 +629,80 @@ class Family:
                 d.fields.append(("r%d" % i, False, self.plain_slot(t), False))
                 i += 1
 
+    def add_core(self):
+        """The fixed CORE set, present in EVERY family whatever the seed: the shapes whose handling by the derive
+        is easy to break without any random family noticing. Built with the same Def / Slot machinery, so the
+        model side (defs term, node-vector comparison, instantiation oracle) covers them like every other definition.
+          CoreNode      recursive root through Option<Box<_>>
+          CoreColor     unit enum with a symbol Null; CoreOptE: Option / Vec<Option> of it
+          CoreU         union enum with the unit variant Null over a union that contains CoreColor (symbol Null)
+          CoreTimes     every date / time / timestamp / uuid attribute on the full-range Rust type (i32 / i64)
+          CoreG<T>      pub generic record WITH a namespace override and owned sub-nodes (duration on [u8; 12],
+                        decimal on [u8; 8]), instantiated twice in CoreRoot
+          CoreH<T>      pub generic record in a sub-module, no namespace override, owned sub-node, instantiated twice
+          CoreBlock<const CN0: usize>  generic over const parameters only, instantiated with 4 and 16 (in the model the
+                        const parameter is a type parameter standing for [u8; N])
+          CoreRoot      all of them in one schema"""
+        def new(kind, ident, nparams=0, module="", ns=None):
+            d = Def(self, len(self.defs), kind, 2000 + len(self.defs))
+            d.ident, d.nparams, d.module, d.ns, d.core = ident, nparams, module, ns, True
+            self.defs.append(d)
+            return d
+        def named(d, *args):
+            return ("named", d.id, tuple(args))
+        def lg(which, rust):
+            spell, base, _ = LOGICALS[which]
+            return Slot(base, rust, avro=['logical_type = "%s"' % spell[0]], logical=which, kind="logical")
+        def dur():
+            return Slot(("bytearr", 12), "[u8; 12]", '#[serde(with = "serde_bytes")]', avro=['logical_type = "duration"'],
+                        gen="gen_arr::<12>(g, @d)", logical="duration", kind="duration")
+        def dec_fixed(n, s, p):
+            return Slot(("bytearr", n), "Decimal", avro=['logical_type = "decimal"', "scale = %d" % s, "precision = %d" % p, 'has_same_type_as = "[u8; %d]"' % n],
+                        gen="gen_decimal(g, %d, %d, %d)" % (s, n, p), logical="(decimal %d %d)" % (s, p), kind="decimal")
+        P = lambda p: ("prim", p)
+        node = new("struct", "CoreNode")
+        node.fields = [("v", False, self.plain_slot(P("i32")), False),
+                       ("next", False, self.plain_slot(("option", ("ptr", "Box", named(node)))), False)]
+        color = new("unit_enum", "CoreColor")
+        color.symbols = [("A", False), ("Null", False), ("B", False)]
+        opte = new("struct", "CoreOptE")
+        opte.fields = [("e", False, self.plain_slot(("option", named(color))), False),
+                       ("es", False, self.plain_slot(("vec", ("option", named(color)))), False),
+                       ("plain", False, self.plain_slot(named(color)), False)]
+        u = new("union_enum", "CoreU")
+        u.variants = [("Null", "Null", None, False),
+                      ("Int", "Int", self.plain_slot(P("i32")), False),
+                      ("Color", color.fullname(), self.plain_slot(named(color)), False),
+                      ("String", "String", self.plain_slot(("string",)), False)]
+        times = new("struct", "CoreTimes")
+        times.fields = [("date", False, lg("date", "i32"), False),
+                        ("time_millis", False, lg("time-millis", "i32"), False),
+                        ("time_micros", False, lg("time-micros", "i64"), False),
+                        ("ts_millis", False, lg("timestamp-millis", "i64"), False),
+                        ("ts_micros", False, lg("timestamp-micros", "i64"), False),
+                        ("id", False, lg("uuid", "String"), False),
+                        ("plain_long", False, self.plain_slot(P("i64")), False)]
+        g = new("gstruct", "CoreG", nparams=1, ns="core.ns")
+        g.fields = [("t", False, self.plain_slot(("param", 0)), False),
+                    ("d", False, dur(), False),
+                    ("m", False, dec_fixed(8, 2, 15), False),
+                    ("micros", False, lg("time-micros", "i64"), False)]
+        h = new("gstruct", "CoreH", nparams=1, module="sub")
+        h.fields = [("items", False, self.plain_slot(("vec", ("param", 0))), False),
+                    ("d", False, dur(), False),
+                    ("m", False, dec_fixed(4, 0, 9), False)]
+        blk = new("gstruct", "CoreBlock", nparams=1)
+        blk.const_generic = True
+        blk.fields = [("data", False, Slot(("param", 0), "[u8; CN0]", '#[serde(with = "serde_bytes")]', gen="gen_arr::<CN0>(g, @d)", kind="arr"), False),
+                      ("n", False, self.plain_slot(P("i32")), False)]
+        root = new("struct", "CoreRoot")
+        fs = [("node", named(node)), ("opt_e", named(opte)), ("u", named(u)), ("us", ("vec", named(u))),
+              ("um", ("map", "BTreeMap", named(u))), ("times", named(times)), ("otimes", ("option", named(times))),
+              ("g1", named(g, P("i32"))), ("g2", named(g, ("string",))), ("g3", named(g, named(color))),
+              ("h1", named(h, P("i64"))), ("h2", named(h, named(node))),
+              ("b4", named(blk, ("bytearr", 4))), ("b16", named(blk, ("bytearr", 16))), ("b4s", ("vec", named(blk, ("bytearr", 4))))]
+        root.fields = [(fn, False, self.plain_slot(t), False) for fn, t in fs]
+
     def make_roots(self):
         rng = self.rng
         roots = []
@@ -632,11 +711,11 @@ class Family:
                 continue
             roots.append((d.ident, ("named", d.id, ())))
         # generic instantiations as roots of their own, and composite roots
-        root = self.defs[-1]
-        for (fn, raw, slot, skip) in root.fields:
-            t = self.peel(slot.stype)
-            if t[0] == "named" and self.defs[t[1]].nparams and slot.kind == "plain":
-                roots.append(("%s=%s" % (fn, self.rust_ty(t)), t))
+        for root in [d for d in self.defs if d.ident in ("Root", "CoreRoot")]:
+            for (fn, raw, slot, skip) in root.fields:
+                t = self.peel(slot.stype)
+                if t[0] == "named" and self.defs[t[1]].nparams and slot.kind == "plain":
+                    roots.append(("%s=%s" % (fn, self.rust_ty(t)), t))
         nong = [x for x in self.defs if not x.nparams]
         for i in range(6):
             x = rng.choice(nong)
@@ -813,6 +892,9 @@ class Family:
     def generics(self, d, bound=None):
         if not d.nparams:
             return "", ""
+        if d.const_generic:
+            ns = ["CN%d" % i for i in range(d.nparams)]     # (N0, N1.. are identifiers of random newtypes)
+            return ("<%s>" % ", ".join("const %s: usize" % n for n in ns), "<%s>" % ", ".join(ns))
         ps = ["T%d" % i for i in range(d.nparams)]
         return ("<%s>" % ", ".join(p + (": " + bound if bound else "") for p in ps), "<%s>" % ", ".join(ps))
 
@@ -906,7 +988,7 @@ class Family:
 
     def ref_twin(self, d):
         """a borrowing twin of a plain struct: &'a T / &'a str / &'a [T] fields, same Avro name; None if not applicable"""
-        if d.kind != "struct" or d.nparams or not d.fields or d.ident == "Root":
+        if d.kind != "struct" or d.nparams or not d.fields or d.ident in ("Root", "CoreRoot"):
             return None
         if d.id in self.reachable(d):
             return None     # a recursive type: the twin would define the record a second time
